@@ -662,7 +662,7 @@ func checkMain(args []string) int {
 	sort.Slice(viols, func(i, j int) bool { return viols[i].Signature < viols[j].Signature })
 	seen := map[string]bool{}
 	nviol := 0
-	repDir := filepath.Join(*verif, "out", "replays")
+	repDir := filepath.Join(outDir(*verif), "out", "replays")
 	os.MkdirAll(repDir, 0755)
 	for _, rf := range viols {
 		if seen[rf.Signature] {
@@ -799,8 +799,18 @@ func writeEvidence(verif string, plan *Plan, tier string, seed uint64, a *Agg, w
 		"violations": nviol,
 	}
 	b, _ := json.MarshalIndent(ev, "", " ")
-	os.MkdirAll(filepath.Join(verif, "evidence"), 0755)
-	os.WriteFile(filepath.Join(verif, "evidence", plan.Prop+".json"), b, 0644)
+	os.MkdirAll(filepath.Join(outDir(verif), "evidence"), 0755)
+	os.WriteFile(filepath.Join(outDir(verif), "evidence", plan.Prop+".json"), b, 0644)
+}
+
+// outDir is where evidence and replay files go: /verif, unless VERIF_OUT
+// names another directory (runs against seeded changes and mutants must not
+// overwrite the evidence of the unchanged tree).
+func outDir(verif string) string {
+	if d := os.Getenv("VERIF_OUT"); d != "" {
+		return d
+	}
+	return verif
 }
 
 // customChecks holds checks with their own drivers (C06, C17, C18, C19, selftests).
